@@ -9,6 +9,8 @@ require (
 	verif/simrt v0.0.0
 )
 
+require golang.org/x/tools v0.26.0 // indirect
+
 replace verif/simrt => /verif/simrt
 
 replace gonum.org/v1/gonum => /var/tmp/verif-scratch-test
